@@ -262,6 +262,8 @@ class _ReadSourceGenerator:
             field_type = field_type.type
 
         if issubclass(field_type, Char):
+            # Read through the char type itself so it keeps its own storage unit, but produce a uint8 value
+            read_type = lookup
             field_type = field_type.cs.uint8
             lookup = "cls.cs.uint8"
 
